@@ -28,6 +28,11 @@ func (*TextUnmarshalerMangler) Mangle(sf reflect.StructField) ([]reflect.StructF
 
 // Unmangle unmangles.
 func (*TextUnmarshalerMangler) Unmangle(sf reflect.StructField, vs []FieldValueTuple) (reflect.Value, error) {
+	if !sf.Type.Implements(textUnmarshalerType) && !reflect.PtrTo(sf.Type).Implements(textUnmarshalerType) {
+		// Mangle left this field alone (e.g. **T where only *T
+		// implements the interface), so there is no string to convert.
+		return vs[0].Value, nil
+	}
 	return helper.OnImplements(sf.Type, textUnmarshalerType, vs[0].Value, func(input reflect.Value, v reflect.Value) (reflect.Value, error) {
 		strPtr := input.Interface().(*string)
 		if strPtr == nil {
